@@ -304,6 +304,34 @@ var scenarios = []scenario{
 		}
 		c.deliverAll(func(m *simMsg) bool { return m.kind == rpcVote })
 	}, 3, true},
+	{"candidate-id-equals-term", func(c *simCluster) {
+		// a voter that already is in term 3 without a vote is asked by candidate 3 (node id = term), restarts,
+		// and is asked again by candidate 2 of the same term
+		c.elect(1)
+		c.replicate(1, 3) // node 3 holds the no-op of term 2, node 2 does not
+		c.loseQuorum(1)
+		c.disconnect(2, 1)
+		c.disconnect(3, 1)
+		only := func(from, to uint64) {
+			c.deliverAll(func(m *simMsg) bool { return m.kind == rpcVote && !m.isResp && m.from == from && m.to == to })
+		}
+		c.doTimeout(c.nodes[2]) // candidate of term 3 with the shorter log
+		for k := 0; k < 4 && c.nodes[2].cur == Candidate; k++ {
+			c.candidateStep(c.nodes[2])
+		}
+		only(2, 1)              // node 1 refuses (its log is longer) but is now in term 3, vote 0
+		c.doTimeout(c.nodes[3]) // candidate 3 of term 3
+		for k := 0; k < 4 && c.nodes[3].cur == Candidate; k++ {
+			c.candidateStep(c.nodes[3])
+		}
+		only(3, 1)
+		c.crash(1, true)
+		// candidate 2 asks node 1 once more (a retry of the same request on a new connection)
+		q := &voteReq{req: req{c.nodes[2].r.term, 2}, lastLogIndex: c.nodes[2].r.lastLogIndex, lastLogTerm: c.nodes[2].r.lastLogTerm}
+		c.net = append(c.net, &simMsg{from: 2, to: 1, wire: wireReq(q, nil), kind: rpcVote, epoch: c.epoch[2], lit: "(EVoteReq " + coqVoteReq(q) + ")"})
+		only(2, 1)
+		c.deliverAll(func(m *simMsg) bool { return m.kind == rpcVote })
+	}, 3, true},
 	{"conflicting-suffix-same-term-as-prev", func(c *simCluster) {
 		// Two leader changes: follower 5 holds (4, term 3) from a leader that never reached a quorum, while the
 		// leader of term 4 holds (4, term 2) right after the matching entry (3, term 2): the first conflicting
@@ -541,6 +569,29 @@ var scenarios = []scenario{
 			c.replicate(1)
 		}
 	}, 2, false},
+	{"restart-with-three-configs-in-the-log", func(c *simCluster) {
+		// three configuration entries above the snapshot, the newest uncommitted, then a follower restarts:
+		// its committed configuration must be the predecessor of the latest one
+		c.elect(1)
+		c.replicate(1)
+		_ = c.addNode(4, nil)
+		c.changeConfigWith(1, func(cfg *Config) {
+			cfg.Nodes[4] = Node{ID: 4, Addr: "M4:8888", Action: Promote}
+		})
+		for k := 0; k < 4; k++ {
+			c.replicate(1) // node 4 catches up, is promoted, the promotion commits
+		}
+		c.doClient(c.nodes[1], []entryType{entryUpdate})
+		c.replicate(1)
+		c.changeConfigWith(1, func(cfg *Config) {
+			nn := cfg.Nodes[3]
+			nn.Action = Demote
+			cfg.Nodes[3] = nn
+		})
+		c.replicate(1, 2) // only node 2 hears of the demotion: it stays uncommitted
+		c.crash(2, true)
+		c.crash(1, true)
+	}, 3, false},
 	{"single-voter-grows", func(c *simCluster) {
 		c.elect(1)
 		_ = c.addNode(2, nil)
